@@ -10,21 +10,42 @@ import (
 // Directed counterparts of AddCorrupted / AddOnInvalid: the caller names the block, so that a
 // history can be built around a reorg that is bound to fail at a chosen depth.
 
-// AddPayoutCorruptedCopyOf adds a sibling of src that differs only in its miner payout (one
-// hasting too much): the header is valid, the body is not. Returns nil if src cannot be used.
-func (t *Tree) AddPayoutCorruptedCopyOf(src *Node) *Node {
+// AddBodyCorruptedCopyOf adds a sibling of src that differs only in one flipped signature bit of its
+// first signed transaction (the commitment is recomputed): the header is valid, the body is not.
+// Returns nil if src cannot be used (no signed transaction).
+func (t *Tree) AddBodyCorruptedCopyOf(src *Node) *Node {
 	if src == nil || src.Parent == nil || src.Corrupt != "" || !src.ChainValid() {
 		return nil
 	}
 	blk := deepCopyBlock(src.Block)
 	pcs := src.Parent.State
-	blk.MinerPayouts[0].Value = blk.MinerPayouts[0].Value.Add(types.NewCurrency64(1))
+	done := false
+	for i := range blk.Transactions {
+		if len(blk.Transactions[i].Signatures) > 0 && !done {
+			blk.Transactions[i].Signatures[0].Signature[0] ^= 1
+			done = true
+		}
+	}
+	if !done && blk.V2 != nil {
+		for i := range blk.V2.Transactions {
+			if !done && len(blk.V2.Transactions[i].SiacoinInputs) > 0 && len(blk.V2.Transactions[i].SiacoinInputs[0].SatisfiedPolicy.Signatures) > 0 {
+				blk.V2.Transactions[i].SiacoinInputs[0].SatisfiedPolicy.Signatures[0][0] ^= 1
+				done = true
+			}
+		}
+	}
+	if !done {
+		return nil
+	}
+	if blk.V2 != nil {
+		blk.V2.Commitment = pcs.Commitment(blk.MinerPayouts[0].Address, blk.Transactions, blk.V2Transactions())
+	}
 	FindNonce(pcs, &blk)
 	id := blk.ID()
 	if _, dup := t.ByID[id]; dup {
 		return nil
 	}
-	n := &Node{Block: blk, ID: id, Parent: src.Parent, Height: src.Parent.Height + 1, Kinds: src.Kinds, Corrupt: "payout-value"}
+	n := &Node{Block: blk, ID: id, Parent: src.Parent, Height: src.Parent.Height + 1, Kinds: src.Kinds, Corrupt: "signature"}
 	t.label(n)
 	t.add(n)
 	return n
